@@ -43,7 +43,7 @@ ASSUMPTIONS = [
     "key relations are judged only when the independent Krumhansl-Schmuckler reference (vmon/refmodels/keyprofile.py) "
     "separates the two best keys by more than 1e-6 (1e-4 when the float duration sums are not exact), scaled by mean/std of the "
     "pitch-class histogram, for the original and for the transformed input",
-    "permutation invariance of spelling is judged on the multiset of (onset, pitch, step, alter, octave)",
+    "permutation invariance of spelling is judged on the multiset of (onset, duration, pitch, step, alter, octave)",
     "the notes of a MIDI file are read back independently with mido (note_on v>0 ... note_off | note_on v=0 per channel and pitch)",
     "imported scores are compared on sounding notes (notes without tie_prev)",
 ]
@@ -213,7 +213,9 @@ def check_spelling(arr, ret, real, kwargs):
         return idx
 
     def table(a, r):
-        return collections.Counter(zip(a["onset_" + u].tolist(), a["pitch"].tolist(), [str(s) for s in r["step"].tolist()],
+        # a note is told from another by what its row says: onset, pitch and (when the array has one) duration
+        dur = a["duration_" + u].tolist() if "duration_" + u in a.dtype.names else [0] * len(a)
+        return collections.Counter(zip(a["onset_" + u].tolist(), dur, a["pitch"].tolist(), [str(s) for s in r["step"].tolist()],
                                        [int(x) for x in r["alter"].tolist()], [int(x) for x in r["octave"].tolist()]))
 
     base = table(arr, ret)
